@@ -332,7 +332,10 @@ def K.handle (now : Rat) (k : K) (a : Nat) (r : Req) : K :=
     k.register i a
   | .start slot kind d =>
     -- ExecImpl::start / IoImpl::start / CommImpl::start: model action created, state RUNNING, start time = now
-    let (k, i) := k.newImpl { kind := kind, st := .running, act := .started, start := now, owners := [a] }
+    -- a host-to-host comm (`Comm::sendto_async`) is detached at the impl level (`sendto_init`: `pimpl_->detach()`): it
+    -- belongs to maestro's activities_, not to the actor's: it is NOT canceled when the actor terminates
+    let (k, i) := k.newImpl { kind := kind, st := .running, act := .started, start := now,
+                              owners := if kind == .comm then [] else [a] }
     let e : HeapE := if kind == .comm then { impl := i, date := now + linkLat, lat := true, rem := d - linkLat }
                      else { impl := i, date := now + d, full := kind == .io }
     let k := { k with heap := k.heap ++ [e] }
